@@ -31,4 +31,6 @@ PROPS = {
  "C18": P("C18", ["Properties_C18.v"], 200, 2000, [],
           skip_labels=("curve", "nseg", "xcp", "ycp", "xcp_raw", "ycp_raw", "dom", "cinv", "tm_tau", "tm_act", "tm_mult", "tm_partials", "tm_fd"),
           rule="cases from tools/gen_cases.py profile C18; distinct = distinct (curve factory, routine multiset) signatures"),
+ "C19": P("C19", ["Properties_C19.v"], 150, 1500, [], skip_labels=("luaload",), twin_tol=0.0, oracle_skip=("G", "gamma", "errd", "err"),
+          rule="cases from tools/gen_cases.py profile C19: each case builds one mechanism through the API and from a generated Lua file"),
 }
